@@ -144,3 +144,14 @@ Proof.
     assert (E: m2 = m1 * 2^(e1 - e2)) by lia. rewrite E.
     replace e2 with (e1 - (e1 - e2)) at 2 by lia. symmetry. apply round_dy_rep. lia.
 Qed.
+
+Lemma dy_scale_eqv k a b : dy_eqb a b = true -> dy_eqb (dy_scale k a) (dy_scale k b) = true.
+Proof.
+  destruct a as [m1 e1], b as [m2 e2]. unfold dy_eqb, dy_align, dy_scale. cbn [dm de]. intros H.
+  replace (Z.min (e1 + k) (e2 + k)) with (Z.min e1 e2 + k) by lia.
+  replace (e1 + k - (Z.min e1 e2 + k)) with (e1 - Z.min e1 e2) by lia.
+  replace (e2 + k - (Z.min e1 e2 + k)) with (e2 - Z.min e1 e2) by lia. exact H.
+Qed.
+(* the quantizer depends only on the value of its input *)
+Lemma quantize_eqv f r o a b : dy_eqb a b = true -> quantize f r o a = quantize f r o b.
+Proof. intros H. unfold quantize. f_equal. apply round_dy_eqv. apply dy_scale_eqv. exact H. Qed.
